@@ -29,7 +29,7 @@ def match_known(known, prop, tag):
     for k in known:
         if k.get("status") != "known" or k.get("property") != prop:
             continue
-        if tag.startswith(k["tag"]):
+        if tag.startswith(k["tag"]) and (not k.get("tag_requires") or k["tag_requires"] in tag):
             return k
     return None
 
